@@ -263,6 +263,22 @@ class Dataflow:
         return ("val", self.canon.path(pl))
 
     # ---- state ops -----------------------------------------------------------------------
+    def _is_noise_call(self, bb):
+        cache = self.__dict__.setdefault("_noise", {})
+        if bb not in cache:
+            t = self.b.term(bb)
+            noisy = False
+            if t[0] == "call":
+                cal = t[1]
+                if (cal.get("krate") or "").split("_")[0] in ("tracing", "log"):
+                    noisy = True
+                else:
+                    sti = cal.get("self_ty")
+                    ty = self.b.ty(sti) if sti is not None else ""
+                    noisy = ty.startswith(("tracing_core::", "tracing::", "log::"))
+            cache[bb] = noisy
+        return cache[bb]
+
     def restrict(self, st, e, vs):
         """returns new state or None if infeasible"""
         k = e[0]
@@ -273,6 +289,8 @@ class Dataflow:
             # boolean negation
             flip = lambda s: frozenset(1 - x for x in s if x in (0, 1))
             return self.restrict(st, e[1], (vs[0], flip(vs[1])))
+        if k == "call" and self._is_noise_call(e[1]):
+            return st       # outcomes of log-level checks (tracing / log) never matter to a rule and only multiply the disjuncts
         cur = st.get(e, TOP)
         new = vs_meet(cur, vs)
         if new[0] == "notin" and k == "disc" and self.facts is not None:
@@ -319,15 +337,20 @@ class Dataflow:
                 is_eq = (e[1] == "Eq") == (truth == 1)
                 inner = ("in", frozenset([c[1]])) if is_eq else ("notin", frozenset([c[1]]))
                 return self.restrict(st, a, inner)
-        # a strict inequality that holds excludes the bound itself (sound weakening for every integer type)
+        # an inequality against a constant excludes one value (sound weakening for every integer type):
+        # x < c, x > c exclude c;  x <= c excludes c + 1;  x >= c excludes c - 1
         if k == "bin" and e[1] in ("Lt", "Gt", "Le", "Ge") and new[0] == "in" and len(new[1]) == 1:
             truth = next(iter(new[1]))
-            strict_holds = (e[1] in ("Lt", "Gt") and truth == 1) or (e[1] in ("Le", "Ge") and truth == 0)
             a, c = e[2], e[3]
+            rel = e[1]
             if a[0] == "const":
                 a, c = c, a
-            if strict_holds and c[0] == "const" and a[0] != "const":
-                return self.restrict(st, a, ("notin", frozenset([c[1]])))
+                rel = {"Lt": "Gt", "Gt": "Lt", "Le": "Ge", "Ge": "Le"}[rel]
+            if truth != 1:
+                rel = {"Lt": "Ge", "Ge": "Lt", "Gt": "Le", "Le": "Gt"}[rel]
+            if c[0] == "const" and a[0] != "const" and isinstance(c[1], int):
+                excluded = {"Lt": c[1], "Gt": c[1], "Le": c[1] + 1, "Ge": c[1] - 1}[rel]
+                return self.restrict(st, a, ("notin", frozenset([excluded])))
         return st
 
     def kill_path(self, st, path):
@@ -594,6 +617,14 @@ class DisjFlow(Dataflow):
         cnt[block] = cnt.get(block, 0) + 1
         if len(groups) > 8 or (block is not None and cnt[block] > 12):
             return {frozenset(self._join_all(states).items())}
+        # within a group, keep apart what the decided outcomes of (non-logging) predicate calls keep apart, as long as that stays small
+        fine = {}
+        for sig, g in groups.items():
+            for fs in g:
+                sig2 = (sig, frozenset((k, v) for k, v in fs if k[0] == "call" and v[0] == "in" and len(v[1]) == 1))
+                fine.setdefault(sig2, []).append(fs)
+        if len(fine) <= 16:
+            groups = fine
         return {frozenset(self._join_all(g).items()) for g in groups.values()}
 
     def _is_bool_temp(self, l):
